@@ -75,6 +75,8 @@ def expected_nodes(prog):
         c = "constrained" if o in cons else "None"
         if s["op"] == "linear":
             exp[("linear", c)] += 1
+        elif s["op"] == "seq":
+            exp[("linear", c)] += 2
         elif s["op"] == "sdpa":
             exp[("scaled_dot_product_attention", "-")] += 1
         elif s["op"] == "matmul":
@@ -85,7 +87,7 @@ def expected_nodes(prog):
             exp[("embedding", "-")] += 1
         elif s["op"] == "ew" and s["fn"] in dsl.EW_MAPPED:
             name = {"gelu_tanh": "gelu", "gelu_mod": "gelu", "softmax_pos": "softmax", "softmax_mod": "softmax", "dropout0": "dropout",
-                    "dropout_eval": "dropout", "layer_norm_mod": "layer_norm"}.get(s["fn"], s["fn"])
+                    "dropout_eval": "dropout", "dropout_mod": "dropout", "layer_norm_mod": "layer_norm", "layer_norm_plain_mod": "layer_norm"}.get(s["fn"], s["fn"])
             exp[(name, c if name in ("gelu", "silu", "softmax") else "-")] += 1
         elif s["op"] == "add":
             if o in plan["residual"]:
